@@ -48,6 +48,7 @@ fn profile() -> Profile<'static> {
         // only names that no check looks up by name (`find_symbol` returns the first entry)
         dup_names: &["strcpy", "gets", "memcpy", "printf"],
         p_dup: 60,
+        p_cond_call: 30,
     }
 }
 
